@@ -31,7 +31,7 @@ func runC20(c *Ctx) {
 	p := c.Progs["mod"]
 	c.Rule("C20.G", "health gate before any polling", 7)
 	c.Rule("C20.U", "consecutive-failure counter and threshold", 7)
-	c.Rule("C20.S", "shutdown sequence", 9)
+	c.Rule("C20.S", "shutdown sequence; signal dispositions, adapter result and health interval", 12)
 	c.Rule("C20.P", "polling stops once cancellation is observed", 3)
 	c.Rule("C20.W", "workers are independent of the polling context", 4)
 	const ag = ModPath + "/agent"
@@ -360,59 +360,7 @@ func runC20(c *Ctx) {
 	if f := c.need(p, "C20.S", "agent/utils.ShutdownSignalChan"); f != nil {
 		sn := c.UniqueCall("C20.S", p, f, false, "os/signal.Notify")
 		if sn != nil {
-			sigs := map[int64]bool{}
-			SliceBack(PArgs(CallOf(sn))[1], func(v ssa.Value) bool {
-				if mi, ok := v.(*ssa.MakeInterface); ok {
-					if n, isC := ConstInt(mi.X); isC {
-						sigs[n] = true
-					}
-				}
-				return true
-			})
-			// … or a package-level table of signals that only the initialiser writes
-			if len(sigs) == 0 {
-				if ld, isLd := PArgs(CallOf(sn))[1].(*ssa.UnOp); isLd && ld.Op == token.MUL {
-					if g, isG := ld.X.(*ssa.Global); isG && globalWrittenOnlyByInit(p, g) {
-						elemWritten := false
-						for _, fn := range p.AllFuncs {
-							EachInstrRaw(fn, func(i ssa.Instruction) {
-								if l2, ok := i.(*ssa.UnOp); ok && l2.Op == token.MUL && l2.X == ssa.Value(g) && !(fn.Name() == "init" && fn.Pkg == g.Pkg) {
-									for _, r := range Refs(l2) {
-										if ia, isIA := r.(*ssa.IndexAddr); isIA {
-											for _, rr := range Refs(ia) {
-												if st, isSt := rr.(*ssa.Store); isSt && st.Addr == ssa.Value(ia) {
-													elemWritten = true
-												}
-											}
-										}
-									}
-								}
-							})
-						}
-						if !elemWritten {
-							for _, fn := range p.AllFuncs {
-								if fn.Name() != "init" || fn.Pkg != g.Pkg {
-									continue
-								}
-								EachInstrRaw(fn, func(i ssa.Instruction) {
-									st, isSt := i.(*ssa.Store)
-									if !isSt || st.Addr != ssa.Value(g) {
-										return
-									}
-									SliceBack(st.Val, func(v ssa.Value) bool {
-										if mi, ok := v.(*ssa.MakeInterface); ok {
-											if n, isC := ConstInt(mi.X); isC {
-												sigs[n] = true
-											}
-										}
-										return true
-									})
-								})
-							}
-						}
-					}
-				}
-			}
+			sigs := notifiedSignals(p, sn)
 			c.Check("C20.S", "signals:exactly-INT-and-TERM", p, sn.Pos(), len(sigs) == 2 && sigs[2] && sigs[15], "signal.Notify(…, SIGINT, SIGTERM)", fmt.Sprintf("the shutdown channel registers signals %v, not exactly SIGINT(2) and SIGTERM(15)", sigs))
 			// goroutine: recv from sigs then close(ch); returned value is ch
 			okG := false
@@ -566,6 +514,65 @@ func runC20(c *Ctx) {
 				c.Check("C20.S", "graceful:always-terminates", p, recv.Pos(), h1 == nil, "with a grace period every path after the signal reaches the terminating call", "with a grace period a path after the signal returns without terminating the process")
 			}
 		}
+	}
+
+	// signal dispositions are changed in one place only, the shutdown channel: a signal.Notify
+	// elsewhere (a metrics flusher, say) that runs before the health gate disables the default
+	// action of SIGINT/SIGTERM while nobody waits for them yet — a stop request during the
+	// wait for a healthy backend is swallowed and the agent no longer stops promptly
+	{
+		bad := ""
+		n := 0
+		for _, fn := range p.AllFuncs {
+			if !p.IsModFunc(fn) {
+				continue
+			}
+			if pk := fnPkg(fn); pk == nil || !(Rel(pk.Pkg.Path()) == "agent" || strings.HasPrefix(Rel(pk.Pkg.Path()), "agent/")) {
+				continue
+			}
+			for _, call := range Calls(fn, "os/signal.Notify", "os/signal.NotifyContext", "os/signal.Ignore", "os/signal.Reset") {
+				n++
+				top := TopFunc(fn)
+				if FuncName(top) != "agent/utils.ShutdownSignalChan" && !(IsNewHelper(top) && helperCalledFrom(top, p.Func("agent/utils.ShutdownSignalChan"))) {
+					bad = CalleeName(CallOf(call)) + " in " + FuncName(fn) + " at " + p.Pos(call.Pos())
+				}
+			}
+		}
+		c.Check("C20.S", "signals:registered-only-by-the-shutdown-channel", p, 0, bad == "" && n >= 1, fmt.Sprintf("%d call(s) that change signal dispositions, all in ShutdownSignalChan", n), "signal dispositions are also changed by "+bad+": from that call on SIGINT/SIGTERM no longer terminate the process by default, so until main reaches its own wait (e.g. during the wait for a healthy backend) a stop request is swallowed")
+	}
+	// the end of polling is not a failure of the adapter: main treats an error of runAdapter as
+	// fatal, so an error returned because the polling context was cancelled terminates the
+	// process at the start of the grace period, with the requests in flight
+	if ra := c.need(p, "C20.S", "agent.runAdapter"); ra != nil {
+		if pc := c.UniqueCall("C20.S", p, ra, false, ModPath+"/agent.pollForNewRequests"); pc != nil {
+			bad := ""
+			for _, r := range Returns(ra) {
+				rr := r
+				if h, _ := (&Walk{Target: func(i ssa.Instruction) bool { return i == ssa.Instruction(rr) }, Local: true}).FromInstr(pc); h == nil {
+					continue
+				}
+				if !IsNilConst(ReturnValue(r, 0)) {
+					bad = p.Pos(r.Pos())
+				}
+			}
+			c.Check("C20.S", "adapter:end-of-polling-is-not-an-error", p, pc.Pos(), bad == "", "runAdapter returns nil once polling has ended", "runAdapter returns a non-nil error after polling ended (return at "+bad+"): main ends the process on any error of the adapter, so cancelling the polling context — the first step of a graceful shutdown — kills the requests in flight instead of giving them the grace period")
+		}
+	}
+	// the health-check configuration is what the flags say: nothing rewrites the interval
+	{
+		bad := ""
+		n := 0
+		for _, fn := range p.AllFuncsIn("agent") {
+			EachInstrRaw(fn, func(i ssa.Instruction) {
+				if st, ok := i.(*ssa.Store); ok {
+					n++
+					if PathOf(st.Addr) == "*global:healthCheckFreq" {
+						bad = FuncName(fn) + " at " + p.Pos(st.Pos())
+					}
+				}
+			})
+		}
+		c.Check("C20.S", "health:interval-flag-not-rewritten", p, 0, bad == "" && n > 0, "nothing stores into the health-check interval flag", "the health-check interval flag is overwritten in "+bad+": a value derived from another setting (a duration truncated to whole seconds, say) can turn into 0, which silently disables the health gate and the periodic checks")
 	}
 
 	// ---- C20.P / C20.W
@@ -822,6 +829,9 @@ func runC20(c *Ctx) {
 		if g := c.UniqueCall("C20.W", p, f, false, ag+".processOneRequest"); g != nil {
 			okA := true
 			for _, a := range PArgs(CallOf(g)) {
+				if a == nil {
+					continue
+				}
 				if a == nil || NamedType(a.Type()) != "context.Context" {
 					continue
 				}
@@ -851,3 +861,62 @@ func runC20(c *Ctx) {
 }
 
 var resetBad bool
+
+// notifiedSignals: the signal numbers a signal.Notify call registers — listed at the call, or
+// held in a package-level table that only the initialiser writes.
+func notifiedSignals(p *Prog, sn ssa.Instruction) map[int64]bool {
+	sigs := map[int64]bool{}
+	SliceBack(PArgs(CallOf(sn))[1], func(v ssa.Value) bool {
+		if mi, ok := v.(*ssa.MakeInterface); ok {
+			if n, isC := ConstInt(mi.X); isC {
+				sigs[n] = true
+			}
+		}
+		return true
+	})
+	// … or a package-level table of signals that only the initialiser writes
+	if len(sigs) == 0 {
+		if ld, isLd := PArgs(CallOf(sn))[1].(*ssa.UnOp); isLd && ld.Op == token.MUL {
+			if g, isG := ld.X.(*ssa.Global); isG && globalWrittenOnlyByInit(p, g) {
+				elemWritten := false
+				for _, fn := range p.AllFuncs {
+					EachInstrRaw(fn, func(i ssa.Instruction) {
+						if l2, ok := i.(*ssa.UnOp); ok && l2.Op == token.MUL && l2.X == ssa.Value(g) && !(fn.Name() == "init" && fn.Pkg == g.Pkg) {
+							for _, r := range Refs(l2) {
+								if ia, isIA := r.(*ssa.IndexAddr); isIA {
+									for _, rr := range Refs(ia) {
+										if st, isSt := rr.(*ssa.Store); isSt && st.Addr == ssa.Value(ia) {
+											elemWritten = true
+										}
+									}
+								}
+							}
+						}
+					})
+				}
+				if !elemWritten {
+					for _, fn := range p.AllFuncs {
+						if fn.Name() != "init" || fn.Pkg != g.Pkg {
+							continue
+						}
+						EachInstrRaw(fn, func(i ssa.Instruction) {
+							st, isSt := i.(*ssa.Store)
+							if !isSt || st.Addr != ssa.Value(g) {
+								return
+							}
+							SliceBack(st.Val, func(v ssa.Value) bool {
+								if mi, ok := v.(*ssa.MakeInterface); ok {
+									if n, isC := ConstInt(mi.X); isC {
+										sigs[n] = true
+									}
+								}
+								return true
+							})
+						})
+					}
+				}
+			}
+		}
+	}
+	return sigs
+}
